@@ -318,6 +318,9 @@ func runLifeOnce(c lifeCase) harness.Result {
 	shortFailed := false // an earlier Shutdown ended with its context's error: a later one may report the listener as closed already
 	cancelled := false
 	labels := []string{fmt.Sprintf("callbacks:%d", c.Callbacks)}
+	if c.AcceptDelayMs > 0 {
+		labels = append(labels, "slow-accept-callback")
+	}
 	hasAccept := c.Callbacks&cbAccept != 0
 	hasClose := c.Callbacks&cbClose != 0
 
@@ -452,6 +455,9 @@ func runLifeOnce(c lifeCase) harness.Result {
 				cl.inflight, cl.inflightStarted = want, true
 				cl.sure = true
 				labels = append(labels, "inflight-request")
+				if st.Fragmented && st.Tail >= 1 && st.Tail <= 3 {
+					labels = append(labels, "inflight-request-completed-by-1-3-byte-fragment")
+				}
 				continue
 			}
 			got, err := readFull(cl.conn, len(want), 5*time.Second)
